@@ -143,13 +143,22 @@ type probeID struct {
 	id nfsv4.Stateid4
 }
 
+// follower40 is the next in-order request of an open-owner, sent while an
+// OPEN of that owner is still being processed.
+type follower40 struct {
+	op  *op40
+	req []byte
+	p   *pending
+}
+
 type v40 struct {
 	*hist
-	clients []*client40
-	held    map[string]map[int]*lf40
-	retired []probeID
-	desyncs int
-	wrapTo  uint32 // successor of sequence ID 0xffffffff
+	follower *follower40
+	clients  []*client40
+	held     map[string]map[int]*lf40
+	retired  []probeID
+	desyncs  int
+	wrapTo   uint32 // successor of sequence ID 0xffffffff
 }
 
 var names40 = []string{"f0", "f1", "f2"}
@@ -725,6 +734,7 @@ func (v *v40) runTracked(op *op40, allowDup bool) {
 	const maxSeq = 0xffffffff
 	ownerWraps := !op.lockSequenced() && op.o.started && op.o.seq == maxSeq
 	lockWraps := (op.lockSequenced() || op.kind == kLockNew) && op.lo != nil && op.lo.known && op.lo.seq == maxSeq
+	v.follower = nil
 	op.nearWrap = ownerWraps || lockWraps || (!op.lockSequenced() && op.seq == maxSeq) || (op.lo != nil && op.lseq == maxSeq)
 	inflight := allowDup && op.kind == kOpen && v.rng.Float64() < 0.3 && !v.inflightDisabled("4.0")
 	var p *pending
@@ -802,6 +812,27 @@ func (v *v40) runTracked(op *op40, allowDup bool) {
 		return
 	}
 	*h = retx{op: op, req: req, reply: p.enc, status: st, present: true}
+	if f := v.follower; f != nil && f.p != nil && f.p.finished() {
+		// The owner's next request, which waited behind the OPEN.
+		v.follower = nil
+		fst := f.p.res.Status
+		v.logf("%s (sent while the OPEN was held) -> %s", f.op, statusName(fst))
+		v.shape = append(v.shape, "follower:"+statusName(fst))
+		if fst != f.op.want {
+			if sequencingStatus[fst] {
+				v.violate(fmt.Sprintf("C19 valid-request-rejected v=4.0 op=%s got=%s after=waiting-behind-open", f.op.kind, statusName(fst)),
+					fmt.Sprintf("%s is the owner's next in-order request; it arrived while %s was being processed and must be executed after it, but got %s", f.op, op, statusName(fst)), nil)
+				v.abort = true
+				return
+			}
+			v.desync(f.op.String(), fst)
+			return
+		}
+		if !v.apply(f.op, f.p.res) {
+			return
+		}
+		*h = retx{op: f.op, req: f.req, reply: f.p.enc, status: fst, present: true}
+	}
 	if !allowDup || inflight {
 		return
 	}
@@ -818,10 +849,12 @@ func (v *v40) runTracked(op *op40, allowDup bool) {
 		}
 	case x < 0.76:
 		v.checkMisordered(op)
-	case x < 0.88:
+	case x < 0.84:
 		v.checkDiffOp(op)
-	default:
+	case x < 0.92:
 		v.checkDiffStateid(op)
+	default:
+		v.checkDiffContent(op)
 	}
 }
 
@@ -1093,6 +1126,111 @@ func (v *v40) checkDiffStateid(last *op40) {
 	v.rejected("same-seqid-other-stateid", h, &alt, true, "same seqid and operation as the owner's last request but a different state ID")
 }
 
+// xdrOpName is the protocol operation behind a request kind.
+func xdrOpName(kind string) string {
+	switch kind {
+	case kOpen, kOpenNoent, kOpenErr, kOpenPrev:
+		return "OPEN"
+	case kLockNew, kLock:
+		return "LOCK"
+	case kLocku:
+		return "LOCKU"
+	case kDowngrade, kDowngradeErr:
+		return "OPEN_DOWNGRADE"
+	case kClose, kCloseOld, kCloseBad:
+		return "CLOSE"
+	}
+	return kind
+}
+
+// differentRequestCheck judges the reply to a request that reuses the
+// sequence ID of the holder's last (successful, cached) request but is not
+// that request: it may be refused (any error) and must leave everything
+// unchanged; it must not be executed, and it must not be answered with the
+// cached reply of the other request.
+func (v *v40) differentRequestCheck(h *retx, alt *op40, via, detail string) {
+	req := v.build(alt)
+	if bytes.Equal(req, h.req) {
+		return
+	}
+	before := v.fingerprint()
+	if v.abort {
+		return
+	}
+	p, ok := v.send(req, "SAME-SEQID-OTHER-CONTENT "+alt.String())
+	if !ok {
+		return
+	}
+	v.dups++
+	after := v.fingerprint()
+	if v.abort {
+		return
+	}
+	h.probed = "same-seqid-other-content"
+	st := p.res.Status
+	v.logf("  same-seqid-other-content (%s): %s -> %s", via, alt, statusName(st))
+	v.shape = append(v.shape, "diff-content:"+statusName(st))
+	v.sit("diff-content-40")
+	v.sit("diff-content-40-" + xdrOpName(alt.kind) + "-" + via)
+	switch {
+	case bytes.Equal(p.enc, h.reply):
+		v.violate(fmt.Sprintf("C19 different-request-answered-with-cached-reply v=4.0 op=%s via=%s", xdrOpName(alt.kind), via),
+			fmt.Sprintf("%s: %s is not a retransmission of %s (the arguments differ) but was answered with that request's cached reply (%s)", detail, alt, h.op, statusName(st)),
+			map[string]any{"cached_request": opNames(decodeArgs(h.req)), "cached_reply": fmt.Sprintf("%x", h.reply)})
+	case st == nfsv4.NFS4_OK:
+		v.violate(fmt.Sprintf("C19 same-seqid-other-content-accepted v=4.0 op=%s via=%s", xdrOpName(alt.kind), via),
+			fmt.Sprintf("%s: %s was executed", detail, alt), nil)
+		v.abort = true
+		return
+	}
+	if before != after {
+		v.violate(fmt.Sprintf("C19 same-seqid-other-content-side-effect v=4.0 op=%s via=%s", xdrOpName(alt.kind), via),
+			fmt.Sprintf("%s: %s changed observable state", detail, alt), map[string]any{"before": before, "after": after})
+	}
+	if h.present && v.rng.IntN(3) == 0 {
+		v.checkReplay(h, "after-same-seqid-other-content")
+	}
+}
+
+// checkDiffContent reuses the seqid (and, where there is one, the state
+// ID) of the owner's last successful request for a request of the same
+// operation type whose other arguments differ: another file, byte range,
+// lock-owner or share access.
+func (v *v40) checkDiffContent(last *op40) {
+	h := v.holderOf(last)
+	if !h.present || h.status != nfsv4.NFS4_OK {
+		return
+	}
+	alt := *last
+	via := "open-owner-seqid"
+	switch last.kind {
+	case kOpen:
+		for _, n := range names40 {
+			if n != last.fname {
+				alt.fname, alt.create = n, false
+			}
+		}
+	case kOpenPrev, kDowngrade:
+		// Same file and state ID, other share access.
+		alt.access = last.access%3 + 1
+	case kLockNew:
+		alt.slot = (last.slot + 1) % 6
+		if v.rng.IntN(2) == 0 {
+			for _, lo := range last.o.lockOwners {
+				if lo != last.lo {
+					alt.lo, alt.lseq = lo, v.seq0()
+				}
+			}
+		}
+	case kLock, kLocku:
+		via = "lock-owner-seqid"
+		alt.slot = (last.slot + 1) % 6
+	default:
+		return
+	}
+	v.differentRequestCheck(h, &alt, via, "same seqid and operation type as the owner's last request")
+}
+
 func sortedKeys[T any](m map[string]T) []string {
 	out := make([]string, 0, len(m))
 	for k := range m {
@@ -1186,16 +1324,37 @@ func (v *v40) inflight(op *op40, req []byte) *pending {
 		v.abort = true
 		return nil
 	}
-	nd := 1 + v.rng.IntN(3)
+	// 2-4 requests of the same open-owner arrive while the OPEN is being
+	// processed: identical retransmissions and, for a confirmed owner,
+	// possibly its next in-order request.
+	nd := 2 + v.rng.IntN(3)
+	v.follower = nil
+	if op.o.confirmed && v.rng.IntN(2) == 0 {
+		nd--
+		fop := &op40{kind: kOpenNoent, o: op.o, fname: "missing", access: nfsv4.OPEN4_SHARE_ACCESS_READ, seq: v.nx(op.seq), want: nfsv4.NFS4ERR_NOENT}
+		v.follower = &follower40{op: fop, req: v.build(fop)}
+	}
 	dups := make([]*pending, nd)
 	for i := range dups {
 		v.requests++
 		dups[i] = v.srv.start(req, "INFLIGHT-RETRANSMIT "+op.String(), true)
 	}
-	parked := waitParked(dups, g, "waitForCurrentTransactionCompletion")
-	v.logf("%s held at gate; %d concurrent retransmissions (parked=%v)", op, nd, parked)
+	waiting := dups
+	if v.follower != nil {
+		v.requests++
+		v.follower.p = v.srv.start(v.follower.req, "NEXT-REQUEST-BEHIND "+v.follower.op.String(), true)
+		waiting = append(append([]*pending{}, dups...), v.follower.p)
+	}
+	parked := waitParked(waiting, g, "waitForCurrentTransactionCompletion")
+	v.logf("%s held at gate; %d concurrent retransmissions, next in-order request behind them: %v (parked=%v)", op, nd, v.follower != nil, parked)
 	if parked {
 		v.sit("inflight-dup-40")
+		if len(waiting) >= 2 {
+			v.sit("inflight-two-or-more-waiters-40")
+		}
+		if v.follower != nil {
+			v.sit("inflight-next-request-behind-open-40")
+		}
 	}
 	if v.rng.IntN(2) == 0 {
 		c := pick(v.rng, v.clients)
@@ -1209,8 +1368,36 @@ func (v *v40) inflight(op *op40, req []byte) *pending {
 		v.abort = true
 		return nil
 	}
-	v.shape = append(v.shape, fmt.Sprintf("inflight%d", nd))
-	v.judgeInflightDups("4.0", op.kind, orig, dups, true, nil)
+	v.shape = append(v.shape, fmt.Sprintf("inflight%d/%v", nd, v.follower != nil))
+	var acceptAlt func(d *pending) bool
+	if v.follower != nil {
+		// A retransmission that is served after the owner's next request
+		// has executed is an old request: it is refused.
+		acceptAlt = func(d *pending) bool { return d.res.Status != nfsv4.NFS4_OK }
+	}
+	v.judgeInflightDups("4.0", op.kind, orig, dups, true, acceptAlt)
+	if f := v.follower; f != nil && !v.abort && !f.p.wait(50*time.Millisecond) {
+		rounds, interval := 3, time.Second
+		if hangFast["4.0"] {
+			rounds, interval = 3, 30*time.Millisecond
+		}
+		if hv := v.judgeStuck(f.p, f.p.label, "request-behind-open-transaction-never-returns", rounds, interval); hv.kind != "returned" {
+			if hv.kind == "hang" {
+				hangFast["4.0"] = true
+				hangCount["4.0"]++
+				v.r.Count("hung_duplicates", 1)
+				if hangCount["4.0"] >= maxHangs {
+					for name := range floors {
+						if strings.HasPrefix(name, "inflight-") && strings.HasSuffix(name, "-40") {
+							v.r.Floor(name, 0)
+						}
+					}
+				}
+			}
+			v.follower = nil
+			v.abort = true // the owner's sequence is no longer known
+		}
+	}
 	if n := g.count(); n != 1 && !v.abort {
 		v.violate(fmt.Sprintf("C19 inflight-dup-reexecuted v=4.0 op=%s", op.kind),
 			fmt.Sprintf("%s and its %d concurrent retransmissions reached the file system %d times; must be once", op, nd, n), nil)
@@ -1275,7 +1462,7 @@ func (h *hist) judgeInflightDups(ver, kind string, orig *pending, dups []*pendin
 				if hangCount[ver] == maxHangs {
 					h.r.Count("inflight_duplicates_disabled_after_hangs_v"+ver, 1)
 					for name := range floors {
-						if strings.HasPrefix(name, "inflight-dup-"+strings.ReplaceAll(ver, ".", "")) {
+						if strings.HasPrefix(name, "inflight-") && strings.Contains(name+"-", "-"+strings.ReplaceAll(ver, ".", "")+"-") {
 							h.r.Floor(name, 0)
 						}
 					}
@@ -1735,6 +1922,11 @@ func (v *v40) checkRefused(o *oo40) {
 			}
 		}
 	}
+	if servedLockOwnerCache {
+		v.violate("C19 different-request-answered-with-cached-reply v=4.0 op=LOCK via=lock-owner-seqid-in-new-lock",
+			fmt.Sprintf("%s has an in-order open-owner seqid (so it is not a retransmission) and asks for a lock on %s; it was answered NFS4_OK with the lock state ID that its lock-owner holds on another file, i.e. with the cached reply of the lock-owner's previous LOCK, and nothing was locked", &alt, alt.fname),
+			map[string]any{"reply": fmt.Sprintf("%x", p.enc)})
+	}
 	if st == nfsv4.NFS4_OK && !servedLockOwnerCache {
 		v.violate(fmt.Sprintf("C19 invalid-request-executed v=4.0 what=%s op=%s", what, alt.kind),
 			fmt.Sprintf("%s (%s) was executed", &alt, what), nil)
@@ -1777,10 +1969,6 @@ func (v *v40) checkRefused(o *oo40) {
 	// request, and its reply is cached.
 	v.r.Count("refused_request_consumed_seqid_"+what+"_"+statusName(st), 1)
 	if servedLockOwnerCache {
-		// The implementation treats the lock-owner seqid as a replay and
-		// serves the lock-owner's cached LOCK reply (RFC 7530 9.1.9 only
-		// asks for an operation type and seqid match). Recorded, not
-		// judged; the lock table was checked to be unchanged above.
 		v.r.Count("new_lock_answered_with_lock_owner_cached_reply", 1)
 	}
 	if alt.lockSequenced() {
